@@ -1,7 +1,7 @@
 #!/usr/bin/env bash
 # tools/seedrun.sh <patch.diff> <Cxx>... : applies the patch to /repo, runs the quick checks, reverts.
 set -u
-P="$1"; shift
+P="$(realpath "$1")"; shift
 cd /repo && git diff --quiet || { echo "/repo not clean"; exit 2; }
 git -C /repo apply "$P" || { echo "patch does not apply to /repo"; exit 2; }
 trap 'git -C /repo checkout -- . ; git -C /repo clean -fdq src tests 2>/dev/null' EXIT
